@@ -259,6 +259,35 @@ func runC16(c *Ctx) {
 		_, _ = m.Pack()
 		c.Pred("svcb-orders", "msg-readonly-ops", "text="+txt, sameAfter(before, m), "message changed by Pack: "+rr.String(), "unchanged", true)
 	}
+	// records built through the API in shapes no decoder produces: IPv4 addresses held in 16 octets, masks of the other
+	// family's length, host bits set, addresses of the wrong length — the read-only operations (PackRR may refuse some of
+	// them) leave every one as it was
+	{
+		v4in16 := net.ParseIP("192.0.2.77") // 16 octets
+		v4 := net.IP{192, 0, 2, 77}
+		v6 := net.ParseIP("2001:db8::4d")
+		hdr := func(t uint16) dns.RR_Header { return dns.RR_Header{Name: "hand.example.", Rrtype: t, Class: 1, Ttl: 60} }
+		var built []dns.RR
+		for _, ip := range []net.IP{v4, v4in16, v6, nil, {1, 2, 3}} {
+			for _, mask := range []net.IPMask{net.CIDRMask(20, 32), net.CIDRMask(20, 128), net.CIDRMask(116, 128), net.CIDRMask(0, 32), nil} {
+				built = append(built, &dns.APL{Hdr: hdr(dns.TypeAPL), Prefixes: []dns.APLPrefix{{Negation: false, Network: net.IPNet{IP: append(net.IP{}, ip...), Mask: append(net.IPMask{}, mask...)}}}})
+			}
+			built = append(built, &dns.A{Hdr: hdr(dns.TypeA), A: append(net.IP{}, ip...)}, &dns.AAAA{Hdr: hdr(dns.TypeAAAA), AAAA: append(net.IP{}, ip...)},
+				&dns.L32{Hdr: hdr(dns.TypeL32), Preference: 1, Locator32: append(net.IP{}, ip...)})
+			for _, fam := range []uint16{1, 2, 3} {
+				opt := &dns.OPT{Hdr: dns.RR_Header{Name: ".", Rrtype: dns.TypeOPT, Class: 1232}}
+				opt.Option = append(opt.Option, &dns.EDNS0_SUBNET{Code: dns.EDNS0SUBNET, Family: fam, SourceNetmask: 20, Address: append(net.IP{}, ip...)})
+				built = append(built, opt)
+			}
+			built = append(built, &dns.SVCB{Hdr: hdr(dns.TypeSVCB), Priority: 1, Target: ".", Value: []dns.SVCBKeyValue{&dns.SVCBIPv4Hint{Hint: []net.IP{append(net.IP{}, ip...)}}, &dns.SVCBIPv6Hint{Hint: []net.IP{append(net.IP{}, ip...)}}}},
+				&dns.IPSECKEY{Hdr: hdr(dns.TypeIPSECKEY), Precedence: 1, GatewayType: 1, Algorithm: 2, GatewayAddr: append(net.IP{}, ip...), PublicKey: "YWJj"},
+				&dns.IPSECKEY{Hdr: hdr(dns.TypeIPSECKEY), Precedence: 1, GatewayType: 2, Algorithm: 2, GatewayAddr: append(net.IP{}, ip...), PublicKey: "YWJj"},
+				&dns.AMTRELAY{Hdr: hdr(dns.TypeAMTRELAY), Precedence: 1, GatewayType: 1, GatewayAddr: append(net.IP{}, ip...)})
+		}
+		for i, rr := range built {
+			c16RR(c, "hand-built", rr, fmt.Sprintf("hand-built #%d %T", i, rr))
+		}
+	}
 	// whole messages
 	n := c.Scale(1500, 30000)
 	for i := 0; i < n; i++ {
